@@ -61,9 +61,14 @@ func (o ObjectAndFilterResult) Map() map[string]interface{} {
 	var filterResultValue interface{}
 	if o.Metadata.JqFilter != "" {
 		// jqFilter is set, so filterResult field should be in a map.
-		// FilterResult is a jq output and should be a string.
+		// FilterResult is either a Go value (a result of the built-in jq filter)
+		// or a string with jq output.
 		filterResString, ok := o.FilterResult.(string)
-		if !ok || filterResString == "" {
+		if !ok {
+			m["filterResult"] = o.FilterResult
+			return m
+		}
+		if filterResString == "" {
 			m["filterResult"] = nil
 			return m
 		}
